@@ -173,4 +173,15 @@ theorem quic_stream_valid_cond_src :
 first question only — model: `errResp qe`). -/
 theorem generr_calls_src : generr_calls = "SetRcode" := by decide
 
+/-- Round 6: the size the DNSCrypt library reads is lowered in a *copy* of the request's OPT record
+(`lowered.SetUDPSize`, the callee of `dnscrypt_clamp` is matched with its receiver), which
+`replaceOPT` puts into a cloned additional section of the request: neither the record nor the
+section a handler response may share with the request is written to. -/
+theorem dnscrypt_lowered_src : dnscrypt_lowered = "replaceOPT(r, opt)" := by decide
+set_option maxRecDepth 16384 in
+theorem dnscrypt_replace_opt_src :
+    dnscrypt_replace_opt_body =
+      "{ optCopy = &dns.OPT{Hdr: opt.Hdr, Option: opt.Option} r.Extra = slices.Clone(r.Extra) for i, rr := range r.Extra { if rr == dns.RR(opt) { r.Extra[i] = optCopy } } return optCopy }" := by
+  decide
+
 end Agd.Tie.C08
